@@ -385,11 +385,11 @@ PLANS["C16"] = dict(
 def c17_runs(tier):
     q = tier == "quick"
     return [
-        R("static_pgm", "asan", 120 if q else 1500), R("static_comp", "asan", 120 if q else 1000),
-        R("static_bucket", "asan", 120 if q else 1000), R("static_ef", "asan", 120 if q else 1000),
-        R("segmentation", "asan", 150 if q else 3000), R("dynamic", "asan", 60 if q else 400),
-        R("mapped", "asan", 60 if q else 400), R("multidim", "asan", 60 if q else 400),
-        R("copymove", "asan", 42 if q else 1050), R("cinterface", "asan", 100 if q else 1000),
+        R("static_pgm", "asan", 500 if q else 2500), R("static_comp", "asan", 700 if q else 2500),
+        R("static_bucket", "asan", 600 if q else 2500), R("static_ef", "asan", 700 if q else 2500),
+        R("segmentation", "asan", 500 if q else 4000), R("dynamic", "asan", 250 if q else 800),
+        R("mapped", "asan", 250 if q else 800), R("multidim", "asan", 300 if q else 1000),
+        R("copymove", "asan", 210 if q else 2100), R("cinterface", "asan", 300 if q else 2000),
     ]
 
 
